@@ -531,7 +531,7 @@ mod proofs {
         std::mem::forget(ev); std::mem::forget(ctx);
     }
 
-    // @harness id=C06 tier=quick unwind=14 timeout=1800 fs=4096
+    // @harness id=C06 tier=quick unwind=14 timeout=1800 fs=4096 mem=30
     // @desc an operand with exactly one corrupted field (here: a residue >= q, or a foreign parms id; shape and metadata corruptions in the two sibling harnesses) makes add_inplace refuse (panic) instead of computing
     // @bounds BFV N=2, q={97}; second operand corrupted (residue position and value, or parms-id bit pattern symbolic); first operand valid; all other residues canonical
     // @funcs Evaluator::add_inplace, Evaluator::check_ciphertext, Ciphertext::is_valid_for, Ciphertext::is_metadata_valid_for, Ciphertext::is_buffer_valid, Ciphertext::contains_seed
@@ -540,9 +540,9 @@ mod proofs {
     #[kani::proof]
     #[kani::stub(crate::context::HeContext::get_context_data, crate::context::verif_v::get_context_data_stub)]
     #[kani::stub(alloc::sync::Arc::drop_slow, crate::verif_v::arc_drop_slow_noop)]
-    fn c06_add_refuses_corrupted_residue_or_id() { refuse_case(0, 2) }
+    fn c06_add_refuses_corrupted_residue_or_id() { let w: bool = kani::any(); if w { refuse_case(0) } else { refuse_case(1) } }
 
-    // @harness id=C06 tier=quick unwind=14 timeout=1800 fs=4096
+    // @harness id=C06 tier=quick unwind=14 timeout=1800 fs=4096 mem=30
     // @desc as c06_add_refuses_corrupted_residue_or_id for shape corruptions: size 1, wrong degree, wrong modulus count, buffer length mismatch
     // @bounds BFV N=2, q={97}; corruption chosen symbolically among the four
     // @funcs Evaluator::add_inplace, Evaluator::check_ciphertext, Ciphertext::is_metadata_valid_for, Ciphertext::is_buffer_valid
@@ -551,9 +551,9 @@ mod proofs {
     #[kani::proof]
     #[kani::stub(crate::context::HeContext::get_context_data, crate::context::verif_v::get_context_data_stub)]
     #[kani::stub(alloc::sync::Arc::drop_slow, crate::verif_v::arc_drop_slow_noop)]
-    fn c06_add_refuses_corrupted_shape() { refuse_case(2, 6) }
+    fn c06_add_refuses_corrupted_shape() { let w: u8 = kani::any(); if w == 0 { refuse_case(2) } else if w == 1 { refuse_case(3) } else if w == 2 { refuse_case(4) } else { refuse_case(5) } }
 
-    // @harness id=C06 tier=quick unwind=14 timeout=1800 fs=4096
+    // @harness id=C06 tier=quick unwind=14 timeout=1800 fs=4096 mem=30
     // @desc as c06_add_refuses_corrupted_residue_or_id for metadata corruptions: scale != 1 in BFV, correction factor != 1 in BFV, unexpanded seed marker
     // @bounds BFV N=2, q={97}; corruption chosen symbolically among the three
     // @funcs Evaluator::add_inplace, Evaluator::check_ciphertext, Ciphertext::is_metadata_valid_for, Ciphertext::contains_seed
@@ -562,15 +562,14 @@ mod proofs {
     #[kani::proof]
     #[kani::stub(crate::context::HeContext::get_context_data, crate::context::verif_v::get_context_data_stub)]
     #[kani::stub(alloc::sync::Arc::drop_slow, crate::verif_v::arc_drop_slow_noop)]
-    fn c06_add_refuses_corrupted_metadata() { refuse_case(6, 9) }
+    fn c06_add_refuses_corrupted_metadata() { let w: u8 = kani::any(); if w == 0 { refuse_case(6) } else if w == 1 { refuse_case(7) } else { refuse_case(8) } }
 
-    fn refuse_case(lo: u8, hi: u8) {
+    fn refuse_case(which: u8) {
         let ctx = lits::ctx_bfv_n2_1p();
         let ev = mk_evaluator(ctx.clone());
         let pid = *ctx.first_parms_id();
         let a = sym1::<4>(); let mut b = sym1::<4>();
         let mut c1 = ct1(&a, pid, false, 1, 1.0);
-        let which: u8 = kani::any(); kani::assume(which >= lo && which < hi);
         let bad: u8 = kani::any();
         // every case builds its operand AND runs the operation inside its own arm (concrete shapes per path)
         match which {
